@@ -1024,7 +1024,7 @@ func (e *Exec) strValEq(a, b StrVal) *Term {
 	if pa == pb {
 		return e.tt.Bool(true)
 	}
-	if len(pa.ByTime) != len(pb.ByTime) || len(pa.ByVol) != len(pb.ByVol) || pa.Denom != pb.Denom {
+	if len(pa.ByTime) != len(pb.ByTime) || len(pa.ByVol) != len(pb.ByVol) || pa.Denom != pb.Denom || pa.PriceDec != pb.PriceDec {
 		return e.tt.Bool(false)
 	}
 	r := e.tt.Eq(pa.Price, pb.Price)
